@@ -213,6 +213,9 @@ def generate(tier):
                 c = build(cfg, kind, stat, forms, False, wc=True)
                 if c is not None:
                     cases.append(c)
+    # the same probes with decoy `core` / `std` modules in scope of the derive (a bound written with a relative path would name a decoy trait that every type implements)
+    from .common import decoy_layer
+    cases += decoy_layer([c for c in cases if c is not None], 150)
     seen, out = set(), []
     for c in cases:
         if c.key not in seen:
